@@ -29,21 +29,47 @@ def wrappers(e):
     return chain, dotted(e)
 
 
+def ancestors(n):
+    p = parent(n)
+    while p is not None:
+        yield p
+        p = parent(p)
+
+
+class _Alpha(ast.NodeTransformer):
+    def __init__(self, ren):
+        self.ren = ren
+
+    def visit_Name(self, n):
+        return ast.copy_location(ast.Name(self.ren.get(n.id, n.id), n.ctx), n)
+
+
+def alpha(node, ren):
+    """copy of node with locals renamed to role names (K, V, E): comparisons are made on roles, not spellings"""
+    import copy
+    return ast.fix_missing_locations(_Alpha(ren).visit(copy.deepcopy(node)))
+
+
 def check(run):
     ix = run.ix
     build = ix.func(HC, "Requester.build")
     head = ix.func(HS, "Requestant.parseHead")
     env = ix.func(HS, "Server.buildEnviron")
     # R1 path
-    enc = [n for n in walk_local(build.node) if isinstance(n, ast.Assign) and dotted(n.targets[0]) == "path"
+    enc = [n for n in walk_local(build.node) if isinstance(n, ast.Assign) and isinstance(n.targets[0], ast.Name)
            and isinstance(n.value, ast.Call) and tail(dotted(n.value.func)) in INVERSE]
+    # the local holding the quoted path is the quoted local that is formatted (with the query) into the request target
+    fmtargs = {dotted(a) for n in walk_local(build.node) if isinstance(n, ast.Call) and isinstance(n.func, ast.Attribute) and n.func.attr == "format"
+               for a in n.args}
+    enc = [n for n in enc if n.targets[0].id in fmtargs]
+    pathvar = enc[0].targets[0].id if enc else None
     wenc = tail(dotted(enc[0].value.func)) if enc else None
     dec = [n for n in walk_local(head.node) if isinstance(n, ast.Assign) and dotted(n.targets[0]) == "self.path"]
     rdec = tail(dotted(dec[0].value.func)) if dec and isinstance(dec[0].value, ast.Call) else None
     ok = wenc is not None and INVERSE.get(wenc) == rdec
     run.ob("C14.R1", "%s:path-codec-agreement" % HC, ok, run.site(head, dec[0]) if dec else run.site(head),
            "" if ok else "request path is written with %s and read with %s (inverse of the writer is %s)" % (wenc, rdec, INVERSE.get(wenc)))
-    used = any(isinstance(n, ast.Call) and isinstance(n.func, ast.Attribute) and n.func.attr == "format" and any(dotted(a) == "path" for a in n.args) for n in walk_local(build.node))
+    used = any(isinstance(n, ast.Call) and isinstance(n.func, ast.Attribute) and n.func.attr == "format" and any(pathvar and dotted(a) == pathvar for a in n.args) for n in walk_local(build.node))
     run.ob("C14.R1", "%s:quoted-path-is-sent" % build.fq, used, run.site(build), "" if used else "the quoted path is not what is formatted into the request line")
     pinfo = [n for n in walk_local(env.node) if isinstance(n, ast.Assign) and isinstance(n.targets[0], ast.Subscript)
              and getattr(n.targets[0].slice, "value", None) == "PATH_INFO"]
@@ -75,10 +101,17 @@ def check(run):
         rf = ix.func(HT, rname)
         decs = {}
         for n in walk_local(rf.node):
-            if isinstance(n, ast.Assign) and isinstance(n.targets[0], ast.Name) and n.targets[0].id in ("key", "val") \
+            if isinstance(n, ast.Assign) and isinstance(n.targets[0], ast.Name) \
                     and isinstance(n.value, ast.Call) and tail(dotted(n.value.func)) in INVERSE.values():
                 decs.setdefault(n.targets[0].id, set()).add(tail(dotted(n.value.func)))
-        for role, var in (("key", "key"), ("value", "val")):
+        # roles by use: the reader stores `<result>[K] = V`; K is the key local, V the value local
+        kv = {(n.targets[0].slice.id, n.value.id) for n in walk_local(rf.node) if isinstance(n, ast.Assign)
+              and isinstance(n.targets[0], ast.Subscript) and isinstance(n.targets[0].slice, ast.Name) and isinstance(n.value, ast.Name)}
+        if len(kv) != 1:
+            run.inconclusive_at("C14.R2", run.site(rf), "%s: expected one `<dict>[key] = val` store of two locals, found %d" % (rname, len(kv)))
+            continue
+        kvar, vvar = sorted(kv)[0]
+        for role, var in (("key", kvar), ("value", vvar)):
             want = INVERSE.get(wcodec.get(role))
             got = decs.get(var, set())
             ok = want is not None and got == {want}
@@ -96,7 +129,8 @@ def check(run):
            "" if joins and splits else "packHeader joins name and value with b': ' (found=%s) and parseLeader must split(': ', 1) (found=%s)" % (bool(joins), bool(splits)))
     wcs = {n.args[0].value.lower() for n in walk_local(ph.node) if isinstance(n, ast.Call) and isinstance(n.func, ast.Attribute)
            and n.func.attr == "encode" and n.args and isinstance(n.args[0], ast.Constant)
-           and dotted(n.func.value) in ("value",)}
+           and isinstance(n.func.value, ast.Name) and n.func.value.id != ph.params()[0][0]
+           and any(isinstance(a, ast.For) for a in ancestors(n))}
     rcs = {n.args[0].value.lower() for n in walk_local(pl.node) if isinstance(n, ast.Call) and isinstance(n.func, ast.Attribute)
            and n.func.attr == "decode" and n.args and isinstance(n.args[0], ast.Constant)}
     ok = wcs == rcs and len(wcs) == 1
@@ -126,8 +160,13 @@ def check(run):
             "CONTENT_TYPE": "requestant.headers.get('content-type', '')", "CONTENT_LENGTH": "str(requestant.length)",
             "wsgi.input": "io.BytesIO(requestant.body)"}
     got = {}
+    rets = {dotted(n.value) for n in walk_local(env.node) if isinstance(n, ast.Return)}
+    if len(rets) != 1 or None in rets:
+        run.inconclusive_at("C14.R5", run.site(env), "buildEnviron no longer returns one named dict")
+        return
+    envvar = sorted(rets)[0]
     for n in walk_local(env.node):
-        if isinstance(n, ast.Assign) and isinstance(n.targets[0], ast.Subscript) and dotted(n.targets[0].value) == "environ" \
+        if isinstance(n, ast.Assign) and isinstance(n.targets[0], ast.Subscript) and dotted(n.targets[0].value) == envvar \
                 and isinstance(n.targets[0].slice, ast.Constant):
             got[n.targets[0].slice.value] = (unparse(n.value), n)
     for k, v in sorted(want.items()):
@@ -145,8 +184,12 @@ def check(run):
     loops = [n for n in walk_local(env.node) if isinstance(n, ast.For) and "requestant.headers" in unparse(n.iter)]
     ok = False
     for lp in loops:
-        txt = unparse(lp)
-        ok = "'HTTP_'" in txt and "environ[key] = value" in txt.replace('"', "'") and ".upper()" in txt and "replace('-', '_')" in txt.replace('"', "'")
+        if not (isinstance(lp.target, ast.Tuple) and len(lp.target.elts) == 2 and all(isinstance(e, ast.Name) for e in lp.target.elts)):
+            continue
+        ren = {lp.target.elts[0].id: "K", lp.target.elts[1].id: "V", envvar: "E"}
+        txt = [unparse(alpha(st, ren)).replace('"', "'") for st in lp.body]
+        ok = any(t.startswith("E[") and t.endswith("] = V") for t in txt) and \
+            any("'HTTP_' + K.replace('-', '_').upper()" in t or "'HTTP_' + K.upper().replace('-', '_')" in t for t in txt)
     run.ob("C14.R5", "%s:environ:HTTP_*" % env.fq, ok, run.site(env, loops[0]) if loops else run.site(env),
            "" if ok else "one HTTP_<NAME> entry per request header (dashes to underscores, upper case) is required")
     run.floor("C14.R5", 7)
